@@ -196,3 +196,84 @@ def obligations(ctx):
         ob.fail("ConstrPlutusData codec could not be executed: %s" % skipped)
     ob.fallback_native = "e2n_c04_fixed_tx"
     ob.finish(agg)
+    plutus_data_obligation(ctx)
+
+
+def plutus_data_obligation(ctx):
+    """A Plutus datum decoded from bytes re-encodes to exactly those bytes: PlutusData::deserialize captures the byte range
+    of the item it has just read and the serializer writes that range verbatim.  Token level (positions are token indices):
+    for the datum at the start of the input and behind a prefix, followed or not by more input."""
+    P = ctx.P
+    ob = Obligation(ctx, "c04_e2_plutus_datum_original_bytes", "datum item at stream position 0 / 1 / 2, with and without trailing tokens; the nested datum decoder accepts an item spanning 1..3 tokens",
+                    ["<PlutusData as Deserialize>::deserialize", "<PlutusData as Serialize>::serialize"], fallback_native="e2n_c04_fixed_tx")
+    agg = Engine(P)
+    U = agg.U
+    names = P.struct_fields["PlutusData"]
+    nok = 0
+    for before in (0, 1, 2):
+        for span in (1, 2, 3):
+            for trailing in (0, 2):
+                E = Engine(P, max_loop=8)
+                CM.install(E, target="PlutusData")
+                E.U = U
+                # the nested decoder of the datum structure: consumes `span` tokens and returns some datum
+                def nested(E_, c, args, span=span):
+                    d = VM.deref(E_, args[0])
+                    if not isinstance(d, CM.VDe):
+                        return NotImplemented
+                    d.pos += span
+                    return VEnum("Result", "Ok", [VLazy("datum_structure", "PlutusDataEnum")])
+                E.extra_intrinsics[r"PlutusDataEnum as (?:[\w:]*::)?Deserialize>::deserialize"] = nested
+                toks = [("uint", z3.IntVal(k)) for k in range(before + span + trailing)]
+                def mk(toks=toks, before=before):
+                    de = CM.VDe(list(toks))
+                    de.pos = before
+                    de.entered = True
+                    return [R(de, "raw")]
+                # first-match wins in the intrinsic table: the specific stub has to be tried before the generic nested-decoder model
+                E.extra_intrinsics = dict([(k, v) for k, v in E.extra_intrinsics.items() if "PlutusDataEnum" in k] + [(k, v) for k, v in E.extra_intrinsics.items() if "PlutusDataEnum" not in k])
+                for o in E.explore("<PlutusData as Deserialize>::deserialize", mk, max_paths=20):
+                    what = "datum at token %d spanning %d, %d trailing" % (before, span, trailing)
+                    if o.kind != "return":
+                        ob.vc("%s: no panic (%s %s)" % (what, o.kind, o.msg[:80]), o.pc, z3.BoolVal(False)); continue
+                    if o.value.variant != "Ok":
+                        ob.violation("%s: decoding fails although the nested decoder accepted" % what); continue
+                    nok += 1
+                    E.enter(o)
+                    de = VM.deref(E, o.args[0])
+                    if de.pos != before + span:
+                        ob.violation("%s: the reader is left at token %d, expected %d (the datum must consume exactly its own item)" % (what, de.pos, before + span)); continue
+                    val = o.value.fields[0]
+                    ob_ = val.fields[names.index("original_bytes")]
+                    if not (isinstance(ob_, VEnum) and ob_.variant == "Some"):
+                        ob.violation("%s: no original bytes are kept" % what); continue
+                    kept = E.as_u(ob_.fields[0])
+                    fills = [t for t in o.trace if t[0] == "fill_buf"]
+                    slices = [t for t in o.trace if t[0] == "prefix_slice"]
+                    if len(fills) != 1 or len(slices) != 1:
+                        ob.fail("%s: expected one fill_buf and one prefix slice, saw %d / %d" % (what, len(fills), len(slices))); continue
+                    if fills[0][1] != before:
+                        ob.violation("%s: the buffer is read from token %d, the datum started at %d" % (what, fills[0][1], before))
+                    ob.vc("%s: the kept bytes are the first (end - start) bytes of the buffer at the datum's start" % what, o.pc,
+                          z3.And(slices[0][1] == fills[0][2], slices[0][2] == span, kept == slices[0][3]))
+                    # re-encode
+                    S = Engine(P, max_loop=4)
+                    CM.install(S, target="PlutusData")
+                    S.U = U
+                    S.base = list(o.pc)
+                    def mk2(val=val, S=S, o=o):
+                        S.lazy_ident.update(o.idents)
+                        return [R(clone(val), "self"), R(CM.VSer(), "ser")]
+                    routs = [r for r in S.explore("<PlutusData as cbor_event::se::Serialize>::serialize", mk2, max_paths=10) if r.kind == "return" and r.value.variant == "Ok"]
+                    if len(routs) != 1:
+                        ob.violation("%s: the decoded datum does not re-encode deterministically" % what); continue
+                    S.enter(routs[0])
+                    out = VM.deref(S, routs[0].args[1]).tokens
+                    if len(out) != 1 or out[0][0] != "raw":
+                        ob.violation("%s: the decoded datum is re-encoded structurally (%s) instead of from its original bytes" % (what, [t[0] for t in out])); continue
+                    ob.vc("%s: the bytes written are the bytes kept" % what, routs[0].pc, out[0][1] == kept)
+                    agg.stats["paths"] += S.stats["paths"]; agg.stats["functions"] |= S.stats["functions"]
+                agg.stats["paths"] += E.stats["paths"]; agg.stats["feasibility_queries"] += E.stats["feasibility_queries"]; agg.stats["functions"] |= E.stats["functions"]
+    if nok < 18:
+        ob.fail("only %d of 18 decode scenarios reached Ok" % nok)
+    ob.finish(agg)
